@@ -144,3 +144,10 @@ def run(ctx):
                        "capacity/live/held-bytes' exploration, not by a closed theorem; A per slice of <= 8192 instructions "
                        "is a theorem about the machine model (slice_alloc_bound: <= 8192*3 + cells allocated by the "
                        "builtins called) under the law ExtAllocOnly on the unmodelled operations"])
+
+
+# ROUND 8: the Ext laws are theorems for a table of real builtins (lib/props/procinv_util.py, Lemmas/ListExtC12.lean)
+import procinv_util as _pv8
+MODULE = _pv8.listext_module("C12")
+THEOREMS = THEOREMS + [t for t in _pv8.LISTEXT_LAWS + _pv8.LISTEXT["C12"] if t not in THEOREMS]
+META["note"] = META["note"] + _pv8.LISTEXT_NOTE
